@@ -139,7 +139,7 @@ def boxOp (s : McBox α) (op : String) (a : List Int) : Option (McBox α × Stri
     let arr := ds.toArray
     some (s.addDeltaLinear (fun i p => Scal.ofIntShift (arr.getD (i * s.P + p) 0) 0), "")
   | "label", [i] => if i.toNat < s.n then some (s, s!"label={s.labels i.toNat} ") else none
-  | "select1", [] => let r := s.selectFirst; some (s, s!"i={r.1} viol={Scal.render r.2} ")
+  | "select1", [] => let r := s.selectWorkingSet; some (s, s!"i={r.1} j={r.2.1} viol={Scal.render r.2.2} ")
   | _, _ => none
 end
 
